@@ -210,7 +210,9 @@ def _quote_paths(paths, start, end, append_end=True, cdpath=False):
     for s in paths:
         start = orig_start
         end = orig_end
-        path_needs_quotes = name_needs_quotes(s, sep=slash)
+        # ``!`` inside a bare word starts a subprocess macro (``cmd a!b`` runs
+        # ``cmd`` with the arguments ``a`` and ``b``), so such names are quoted.
+        path_needs_quotes = name_needs_quotes(s, sep=slash) or "!" in s
         if path_needs_quotes:
             need_quotes = True
         if start == "" and path_needs_quotes:
